@@ -95,7 +95,7 @@ def ang_dist(x, y):
 # ------------------------------------------------------------------ generators
 def gen(rng, tier):
     big = tier == "thorough"
-    nf, ni = (30000, 30000) if big else (5000, 5000)
+    nf, ni = (90000, 90000) if big else (5000, 5000)
     fwd, inv, rad = [], [], []
     # the witness of the defect first (ECEF (-5e6, 0, 3e6), GRS80) and its neighbours
     for (x, y, z) in [(-5e6, 0.0, 3e6), (-5e6, -0.0, 3e6), (-6378137.0, 0.0, 0.0), (-4e6, 0.0, -4.9e6), (5e6, 0.0, 3e6),
